@@ -158,6 +158,29 @@ def gen_family(lname, v, k, chunk):
     return text.replace("c11_parse_%s_family" % lname, "c11_parse_%s_family%d" % (lname, k)), size
 
 
+SET_T = """    //@H c11_fixups_%s
+    #[kani::proof]
+    #[kani::unwind(20)]
+    #[kani::stub(alloc::fmt::format, stub_format)]
+    fn c11_fixups_%s() {
+        subset_restamp(%d, %d);
+    }
+    //@END
+"""
+_LISTS = {1: "A", 2: "B", 4: "structure"}
+
+
+def set_cases(ctx):
+    """(name, dictionary, request bit mask, description): every non-empty combination of the three reference lists"""
+    out = []
+    for w in range(1, 8):
+        names = [_LISTS[b] for b in (1, 2, 4) if w & b]
+        d = 2 if w != 2 else 1
+        if ctx.tier == "thorough" or w in (1, 4, 3, 5, 6, 2):
+            out.append(("d%d_%s" % (d, "_".join(x.lower() for x in names)), d, w, "{%s}" % ", ".join(names)))
+    return out
+
+
 def params(ctx):
     q = ctx.tier == "quick"
     gens = [gen_layout(n, *v[:7])[0] for n, v in LAYOUTS.items() if ctx.tier in v[7] and not q]
@@ -169,10 +192,24 @@ def params(ctx):
         if not q:
             for k, chunk in enumerate(family_chunks()):
                 gens.append(gen_family(lname, v, k, chunk)[0])
-    return {"GENERATED": "\n\n".join(gens), "NBUF": 10 if q else 14, "UNW": 6 if q else 8, "UNW_STR": 8 if q else 10, "MAXUNITS": 3 if q else 4}
+    return {"GENERATED_SET": "\n".join(SET_T % (n, n, d, w) for (n, d, w, _) in set_cases(ctx)), "GENERATED": "\n\n".join(gens), "NBUF": 10 if q else 14, "UNW": 6 if q else 8, "UNW_STR": 8 if q else 10, "MAXUNITS": 3 if q else 4}
 
 
 def harnesses(ctx):
+    return set_harnesses(ctx) + harnesses_parse(ctx)
+
+
+def set_harnesses(ctx):
+    return [Harness("c11_fixups_" + n, "dic__lexicon_set",
+                    ["LexiconSet::get_word_info_subset", "LexiconSet::update_dict_id", "Lexicon::get_word_info", "WordInfos::get_word_info", "WordInfoParser::parse", "u32_wid_array_parser", "skip_wid_array"],
+                    "word of user dictionary %d (stack: system + 2 user dictionaries) whose A split, B split and word structure each hold one arbitrary raw reference; requested: %s" % (d, desc),
+                    kernel="C11-d user-dictionary fix-ups reach every loaded reference list whatever else is (not) requested: requested lists equal their full-load value, the others are empty",
+                    assumptions=["dictionary number and request concrete per harness", "arbitrary raw u32 references"], stubs=["alloc::fmt::format -> empty string"],
+                    fs_array=True, timeout_s=1500, mem_gb=16, rust_mod="verif_c11_set")
+            for (n, d, w, desc) in set_cases(ctx)]
+
+
+def harnesses_parse(ctx):
     q = ctx.tier == "quick"
     nb = 10 if q else 14
     hs = [
@@ -239,7 +276,7 @@ def harnesses(ctx):
     return hs
 
 
-OUTSIDE = ["token boundaries / word identities under subsets in a full analysis", "user-dictionary fix-ups (C12)",
+OUTSIDE = ["token boundaries / word identities under subsets in a full analysis", "the user-dictionary POS fix-up (decided under C12)",
            "record layouts outside the enumerated ones (string/array lengths are concrete per harness; contents and the subset are symbolic)"]
 EXPLANATION = "Skip widths vs parse widths for all short buffers; the subset closure for all 1024 requests; accessor fallbacks; per-record agreement on enumerated layouts."
 MANIFEST = dict(
@@ -248,7 +285,8 @@ MANIFEST = dict(
     text=("Solver-decided: (a') for every short buffer each skip function leaves exactly the remainder its parsing twin leaves, and for EVERY value of the length prefix (0..255 items, 0..32,767 units, both prefix forms) it skips exactly the field's width; (a) for enumerated record layouts, every one of the "
           "1024 subsets and every content byte, each requested field of a subset parse equals the full parse; (b) InfoSubset::normalize is idempotent, monotone, adds only "
           "SURFACE/HEAD_WORD_LENGTH and adds SURFACE whenever a form that falls back to it is requested; (c) through WordInfo's public accessors every requested field equals "
-          "its full-load value, including the dictionary form of a word that is its own dictionary form."),
+          "its full-load value, including the dictionary form of a word that is its own dictionary form; (d) for a word of a second user dictionary and every non-empty "
+          "combination of {A split, B split, word structure} requested, each requested list is re-stamped exactly as under a full load and the others stay empty."),
     note=("Layouts (string/array lengths) are enumerated; the full-record harnesses are heavy and optional in the quick tier (reported as not decided when they hit their cap). "
           "Boundaries/word identities in a full analysis are outside. Trusted: Kani/CBMC/cadical."),
 )
